@@ -44,6 +44,9 @@ func main() {
 		if err := genTables(host, facts); err != nil {
 			fatal(err)
 		}
+		if err := genGetInfo(host, facts); err != nil {
+			fatal(err)
+		}
 	}
 	if sel("tables") || sel("oracle") {
 		// C12: Nat-coded tables and the independent oracle sources (oracle.go)
